@@ -1,4 +1,9 @@
-"""C10 - configured form limits are enforced and are pure guards (structural clauses)."""
+"""C10 - configured form limits are enforced and are pure guards (structural clauses).
+
+Guards are read through canonical atoms with copy propagation of local aliases
+(wzsa/guards.py); a size check extracted into a one-level helper method is
+followed.
+"""
 
 from __future__ import annotations
 
@@ -6,6 +11,8 @@ import ast
 
 from .. import astq
 from ..cfg import CFG, Node, cfg_of
+from ..dataflow import ReachingDefs
+from ..guards import Aliases, canon
 from ..loader import AnalysisError, FuncInfo, dotted, norm, walk_no_nested
 from ..report import Ctx
 from .c09 import input_stream_rule
@@ -15,14 +22,15 @@ LEVEL_TEXT = (
     "multipart decoder's buffer is reachable only past the false edge of `len(buffer)+len(data) > max_form_memory_size` "
     "(or with the limit None), whose true edge raises RequestEntityTooLarge; (R10.2) every path from the construction of "
     "a Field/File event to the function's exit passes the part counter's increment and the `> max_parts` test; (R10.3) "
-    "the write of field data is reachable, within the Data branch, only past the accumulated-size test, the size is "
-    "reset per Field and disabled per File; (R10.4) unbounded reads of the urlencoded body are dominated by a bound, and "
-    "get_input_stream's declared-length / streamed-maximum table holds (shared with C09-R9.6); (R10.5) each of the three "
-    "limits is forwarded, by keyword, through every constructor of the chain and stored in the attribute the guards "
-    "read; request-level defaults are the documented ones; (R10.6) every use of a limit value or size counter is a "
-    "guard comparison whose only effect is raising RequestEntityTooLarge, an is-not-None test, a forwarding edge, the "
-    "counter's own update or the limit of a maximum-limited stream - non-interference, hence 'identical result when no "
-    "guard fires'. It decides these clauses on all paths; memory held inside the stdlib is not modelled."
+    "the write of field data is reachable, within the Data branch, only past the accumulated-size test (inline or in a "
+    "one-level helper), the size is reset per Field and disabled per File; (R10.4) unbounded reads of the urlencoded body "
+    "are dominated by a bound, and get_input_stream's decision table holds (shared with C09-R9.6); (R10.5) each of the "
+    "three limits is forwarded, by keyword, through every constructor of the chain and stored in the attribute the guards "
+    "read; request-level defaults are the documented ones; (R10.6) every use of a limit value or size counter is a guard "
+    "comparison whose only effect is raising RequestEntityTooLarge, an is-None test, a forwarding edge, a local alias used "
+    "only in such ways, the counter's own update or the limit of a maximum-limited stream - non-interference, hence "
+    "'identical result when no guard fires'. It decides these clauses on all paths; memory held inside the stdlib is not "
+    "modelled."
 )
 TRUSTED = ["CPython ast", "bytearray.extend(data) grows the buffer by len(data)"]
 ASSUMPTIONS = ["SpooledTemporaryFile and parse_qsl internals are not followed", "limits are ints or None"]
@@ -31,47 +39,98 @@ LIMIT_ATTRS = {"max_form_memory_size", "max_form_parts", "max_parts", "max_conte
 COUNTERS = {"field_size", "_parts_decoded"}
 
 
+class F:
+    """a function with its CFG, reaching definitions and alias expander."""
+
+    def __init__(self, fi: FuncInfo):
+        self.fi = fi
+        self.cfg = cfg_of(fi)
+        self.rd = ReachingDefs(self.cfg, fi.params)
+        self.al = Aliases(self.cfg, self.rd)
+
+    def tests(self):
+        return [t for t in self.cfg.tests() if t.kind == "test"]
+
+    def exp(self, t: Node) -> ast.AST:
+        return self.al.expand(t.ast, t)
+
+
 def _is_limit(e: ast.AST, names: set[str]) -> bool:
     return (isinstance(e, ast.Attribute) and e.attr in names) or (isinstance(e, ast.Name) and e.id in names)
 
 
-def _raises_retl_only(cfg: CFG, test: Node, label: str) -> bool:
-    """the `label` successor of test is `raise RequestEntityTooLarge(...)` directly."""
-    succ = cfg.succ(test, label)
-    return bool(succ) and all(isinstance(s.ast, ast.Raise) and astq.raised_name(s.ast) == "RequestEntityTooLarge" for s in succ)
-
-
-def _find_tests(cfg: CFG, pred) -> list[Node]:
-    return [t for t in cfg.tests() if t.kind == "test" and pred(t.ast)]
-
-
 def _cmp_limit(e: ast.AST, limit_names: set[str]):
-    """Compare `bounded >(=) limit` or `limit <(=) bounded` -> bounded expr, else None."""
+    """(bounded expression, strict?) when e is `bounded >(=) limit` / `limit <(=) bounded` (possibly under `not`: then the
+    polarity is flipped and reported as third element)."""
+    pos = True
+    while isinstance(e, ast.UnaryOp) and isinstance(e.op, ast.Not):
+        e = e.operand
+        pos = not pos
     cp = astq.cmp_parts(e)
     if not cp:
         return None
     a, op, b = cp
     if isinstance(op, (ast.Gt, ast.GtE)) and _is_limit(b, limit_names):
-        return a
+        return a, pos
     if isinstance(op, (ast.Lt, ast.LtE)) and _is_limit(a, limit_names):
-        return b
+        return b, pos
+    # `bounded <= limit` under F / not
+    if isinstance(op, (ast.LtE, ast.Lt)) and _is_limit(b, limit_names):
+        return a, not pos
+    if isinstance(op, (ast.GtE, ast.Gt)) and _is_limit(a, limit_names):
+        return b, not pos
     return None
 
 
-def _not_none_test(e: ast.AST, names: set[str]) -> bool:
-    cp = astq.cmp_parts(e)
-    return bool(cp and isinstance(cp[1], ast.IsNot) and astq.is_none(cp[2]) and _is_limit(cp[0], names))
+def _none_test(e: ast.AST, names: set[str]):
+    """(is the atom `X is None`?, polarity) for X a limit"""
+    k, p = canon(e)
+    for nm in names:
+        for base in (f"self.{nm} is None", f"{nm} is None"):
+            if k == base:
+                return p
+    return None
+
+
+def _exceeds_edge(f: F, t: Node, limit_names: set[str]):
+    """for a test comparing something with a limit: (bounded expr, label of the edge on which the bound is exceeded)."""
+    r = _cmp_limit(f.exp(t), limit_names)
+    if r is None:
+        return None
+    bounded, pos = r
+    return bounded, ("T" if pos else "F")
+
+
+def _raises_retl(cfg: CFG, t: Node, label: str) -> bool:
+    succ = cfg.succ(t, label)
+    return bool(succ) and all(isinstance(s.ast, ast.Raise) and astq.raised_name(s.ast) == "RequestEntityTooLarge" for s in succ)
+
+
+def _skip_edges(f: F, limit_names: set[str], extra_none: tuple[str, ...] = ()) -> list[tuple[Node, str]]:
+    """edges taken when the limit (or a named counter) is None: the bound does not apply there."""
+    out = []
+    for t in f.tests():
+        e = f.exp(t)
+        p = _none_test(e, limit_names)
+        if p is not None:
+            out.append((t, "T" if p else "F"))
+            continue
+        k, pp = canon(e)
+        for nm in extra_none:
+            if k == f"{nm} is None":
+                out.append((t, "T" if pp else "F"))
+    return out
 
 
 def run(ctx: Ctx) -> None:
     repo = ctx.repo
     for rid, text in {
-        "R10.1": "buffer growth in MultipartDecoder is reachable only past the false edge of the size test (or limit None); the test's true edge raises RequestEntityTooLarge; nothing else grows the buffer",
+        "R10.1": "buffer growth in MultipartDecoder is reachable only past the not-exceeded edge of the size test (or limit None); the exceeded edge raises RequestEntityTooLarge; nothing else grows the buffer",
         "R10.2": "every path from constructing a Field/File event to the exit of next_event passes `_parts_decoded += 1` and the `> max_parts` test",
         "R10.3": "in MultiPartParser.parse the write of event.data is reachable in the Data branch only past the accumulated field-size test (or limit None / file part); field_size reset at Field, None at File",
-        "R10.4": "urlencoded body: an unbounded stream.read() is dominated by a size bound; get_input_stream table (declared length, streamed maximum)",
+        "R10.4": "urlencoded body: an unbounded stream.read() is dominated by a size bound; get_input_stream decision table (declared length, streamed maximum)",
         "R10.5": "each limit is forwarded by keyword through the whole constructor chain and stored in the attribute the guards read; Request defaults 500000 / 1000 / None",
-        "R10.6": "every use of a limit value or size counter is a pure guard, a forwarding edge, the counter's update, or the limit of LimitedStream(is_max=True)",
+        "R10.6": "every use of a limit value or size counter is a pure guard, a forwarding edge, a local alias used only so, the counter's update, or the limit of LimitedStream(is_max=True)",
     }.items():
         ctx.rule(rid, text)
 
@@ -92,64 +151,62 @@ def run(ctx: Ctx) -> None:
     ctx.floor("R10.1", "buffer growth sites", len(growth), 1)
     for fi, g in growth:
         ctx.saw(fi)
-        cfg = cfg_of(fi)
-        gn = cfg.node_of(g)
-        tests = _find_tests(cfg, lambda e: _cmp_limit(e, {"max_form_memory_size"}) is not None)
-        nn = _find_tests(cfg, lambda e: _not_none_test(e, {"max_form_memory_size"}))
+        f = F(fi)
+        gn = f.cfg.node_of(g)
+        cmps = [(t, _exceeds_edge(f, t, {"max_form_memory_size"})) for t in f.tests()]
+        cmps = [(t, r) for t, r in cmps if r is not None]
         ok = False
         fact = "no size comparison against max_form_memory_size in this function"
-        if len(tests) == 1:
-            t = tests[0]
-            bounded = _cmp_limit(t.ast, {"max_form_memory_size"})
-            bs = norm(bounded)
+        if len(cmps) == 1:
+            t, (bounded, exc_label) = cmps[0]
+            ok_label = "F" if exc_label == "T" else "T"
             shape = isinstance(bounded, ast.BinOp) and isinstance(bounded.op, ast.Add) and {norm(bounded.left), norm(bounded.right)} == {"len(self.buffer)", "len(data)"}
-            avoid = [(t, "F")] + [(x, "F") for x in nn]
-            bypass = gn.id in cfg.reach(avoid_edges=avoid)
-            raises = _raises_retl_only(cfg, t, "T")
+            avoid = [(t, ok_label)] + _skip_edges(f, {"max_form_memory_size"})
+            bypass = gn.id in f.cfg.reach(avoid_edges=avoid)
+            raises = _raises_retl(f.cfg, t, exc_label)
             arg_ok = isinstance(g, ast.Call) and g.func.attr == "extend" and len(g.args) == 1 and astq.is_name(g.args[0], "data")  # type: ignore[attr-defined]
             ok = shape and not bypass and raises and arg_ok
-            fact = f"bounded quantity `{bs}` (len(buffer)+len(data): {shape}); growth reachable without passing the test: {bypass}; true edge raises RequestEntityTooLarge: {raises}; grows by exactly `data`: {arg_ok}"
+            fact = f"bounded quantity `{norm(bounded)}` (len(buffer)+len(data): {shape}); growth reachable without passing the test: {bypass}; exceeded edge raises RequestEntityTooLarge: {raises}; grows by exactly `data`: {arg_ok}"
             if bypass:
-                p = cfg.path(cfg.entry, gn, avoid_edges=avoid)
-                fact += " via " + cfg.fmt_path(p or [])
-        ctx.ob("R10.1", f"{fi.qualname}: `{norm(g)}` is bounded", ok, fact, fi, g, f"growth {norm(g)}")
-    # no writer of decoder.buffer outside the class
+                fact += " via " + f.cfg.fmt_path(f.cfg.path(f.cfg.entry, gn, avoid_edges=avoid) or [])
+        ctx.ob("R10.1", f"{fi.qualname}: buffer growth is bounded", ok, f"`{norm(g)}`: {fact}", fi, g, f"growth {norm(g)}")
     outside = []
     for fi in repo.all_functions():
-        if fi.cls is dec:
+        if fi.cls is dec or fi.module.name not in ("werkzeug.formparser", "werkzeug.sansio.multipart"):
             continue
         for n in walk_no_nested(fi.node):
-            if isinstance(n, ast.Call) and isinstance(n.func, ast.Attribute) and isinstance(n.func.value, ast.Attribute) and n.func.value.attr == "buffer" and n.func.attr in ("extend", "append") and fi.module.name in ("werkzeug.formparser", "werkzeug.sansio.multipart"):
+            if isinstance(n, ast.Call) and isinstance(n.func, ast.Attribute) and isinstance(n.func.value, ast.Attribute) and n.func.value.attr == "buffer" and n.func.attr in ("extend", "append"):
                 outside.append((fi, n))
-    ctx.ob("R10.1", "no code outside the decoder grows its buffer", not outside, f"{[f.fq for f, _ in outside]}", dec.fq, None, "buffer writers outside")
+    ctx.ob("R10.1", "no code outside the decoder grows its buffer", not outside, f"{[x.fq for x, _ in outside]}", dec.fq, None, "buffer writers outside")
 
     # ---------------- R10.2 -------------------------------------------
     ne = dec.methods.get("next_event")
     if ne is None:
         raise AnalysisError("MultipartDecoder.next_event missing")
     ctx.saw(ne)
-    cfg = cfg_of(ne)
+    f = F(ne)
+    cfg = f.cfg
     cons = [c for c in astq.calls(ne.node) if dotted(c.func) in ("Field", "File")]
     ctx.floor("R10.2", "Field/File constructions", len(cons), 2)
     incs = [n for n in cfg.nodes if isinstance(n.ast, ast.AugAssign) and astq.is_self_attr(n.ast.target, "_parts_decoded") and isinstance(n.ast.op, ast.Add) and norm(n.ast.value) == "1"]
-    ptests = _find_tests(cfg, lambda e: _cmp_limit(e, {"max_parts"}) is not None and norm(_cmp_limit(e, {"max_parts"})) == "self._parts_decoded")
-    pnn = _find_tests(cfg, lambda e: _not_none_test(e, {"max_parts"}))
+    pt = [(t, _exceeds_edge(f, t, {"max_parts"})) for t in f.tests()]
+    pt = [(t, r) for t, r in pt if r is not None and norm(r[0]) == "self._parts_decoded"]
+    skips = _skip_edges(f, {"max_parts"})
     for c in cons:
         cn = cfg.node_of(c)
         ok = False
-        fact = f"increments: {len(incs)}, tests: {len(ptests)}"
-        if len(incs) == 1 and len(ptests) == 1:
+        fact = f"increments: {len(incs)}, tests: {len(pt)}"
+        if len(incs) == 1 and len(pt) == 1:
+            t, (_, exc_label) = pt[0]
             passes_inc = cfg.all_paths_pass(cn, [cfg.exit], incs)
-            # from the increment, the exit is unreachable without the comparison unless the limit is None
-            r = cfg.reach(incs[0], avoid_nodes=ptests, avoid_edges=[(x, "F") for x in pnn])
+            r = cfg.reach(incs[0], avoid_nodes=[t], avoid_edges=skips)
             passes_test = cfg.exit.id not in r
-            raises = _raises_retl_only(cfg, ptests[0], "T")
-            strict = isinstance(astq.cmp_parts(ptests[0].ast)[1], (ast.Gt, ast.GtE, ast.Lt, ast.LtE))
-            ok = passes_inc and passes_test and raises and strict
-            fact = f"every path to the exit passes the increment: {passes_inc}; then the `{norm(ptests[0].ast)}` test: {passes_test}; its true edge raises: {raises}"
+            raises = _raises_retl(cfg, t, exc_label)
+            ok = passes_inc and passes_test and raises
+            fact = f"every path to the exit passes the increment: {passes_inc}; then the `{norm(t.ast)}` test (unless the limit is None): {passes_test}; its exceeded edge raises: {raises}"
         ctx.ob("R10.2", f"`{norm(c.func)}(...)` event is counted and bounded", ok, fact, ne, c, f"part event {norm(c.func)}")
-    pd_writes = [(n_, fi_) for n_, fi_ in _attr_writes(dec, "_parts_decoded")]
-    ctx.ob("R10.2", "_parts_decoded written only as 0 in __init__ and += 1 in next_event", sorted((f.name, norm(n)) for n, f in pd_writes) == [("__init__", "self._parts_decoded = 0"), ("next_event", "self._parts_decoded += 1")], f"{[(f.name, norm(n)) for n, f in pd_writes]}", ne, ne.node, "_parts_decoded writers")
+    pd_writes = _attr_writes(dec, "_parts_decoded")
+    ctx.ob("R10.2", "_parts_decoded written only as 0 in __init__ and += 1 in next_event", sorted((x.name, norm(n)) for n, x in pd_writes) == [("__init__", "self._parts_decoded = 0"), ("next_event", "self._parts_decoded += 1")], f"{[(x.name, norm(n)) for n, x in pd_writes]}", ne, ne.node, "_parts_decoded writers")
 
     # ---------------- R10.3 -------------------------------------------
     mp = repo.cls("formparser.MultiPartParser")
@@ -157,41 +214,69 @@ def run(ctx: Ctx) -> None:
     if pa is None:
         raise AnalysisError("MultiPartParser.parse missing")
     ctx.saw(pa)
-    cfg = cfg_of(pa)
-    dtests = _find_tests(cfg, lambda e: isinstance(e, ast.Call) and dotted(e.func) == "isinstance" and len(e.args) == 2 and norm(e.args[0]) == "event" and norm(e.args[1]) == "Data")
+    f = F(pa)
+    cfg = f.cfg
+    dtests = [t for t in f.tests() if isinstance(t.ast, ast.Call) and dotted(t.ast.func) == "isinstance" and len(t.ast.args) == 2 and norm(t.ast.args[0]) == "event" and norm(t.ast.args[1]) == "Data"]
     if len(dtests) != 1:
         raise AnalysisError("MultiPartParser.parse: `isinstance(event, Data)` branch not found (slot)")
     dt = dtests[0]
     writes = [c for c in astq.calls(pa.node) if any(any(norm(x) == "event.data" for x in ast.walk(a)) for a in c.args) and dotted(c.func) != "len" and not any(isinstance(a, ast.Call) and dotted(a.func) == "len" for a in c.args)]
+    # a self-method that receives event.data and performs the size accounting is a helper, not a write
+    helpers = {}
+    for c in list(writes):
+        if isinstance(c.func, ast.Attribute) and astq.is_self_attr(c.func) and c.func.attr in mp.methods:
+            hs = _accounting_helper(ctx, mp.methods[c.func.attr])
+            if hs is not None:
+                helpers[id(c)] = (c, hs)
+                writes.remove(c)
     ctx.floor("R10.3", "writes of event.data", len(writes), 1)
-    ftests = _find_tests(cfg, lambda e: _cmp_limit(e, {"max_form_memory_size"}) is not None and norm(_cmp_limit(e, {"max_form_memory_size"})) == "field_size")
-    fnn = _find_tests(cfg, lambda e: _not_none_test(e, {"max_form_memory_size"}) or norm(e) == "field_size is not None")
+    ft = [(t, _exceeds_edge(f, t, {"max_form_memory_size"})) for t in f.tests()]
+    ft = [(t, r) for t, r in ft if r is not None and norm(r[0]) == "field_size"]
+    skips = _skip_edges(f, {"max_form_memory_size"}, ("field_size",))
     finc = [n for n in cfg.nodes if isinstance(n.ast, ast.AugAssign) and astq.is_name(n.ast.target, "field_size") and isinstance(n.ast.op, ast.Add) and norm(n.ast.value) == "len(event.data)"]
     for w in writes:
         wn = cfg.node_of(w)
+        start = cfg.succ(dt, "T")
         ok = False
-        fact = f"size tests: {len(ftests)}, increments: {len(finc)}"
-        if len(ftests) == 1 and len(finc) == 1:
-            start = cfg.succ(dt, "T")
+        if len(ft) == 1 and len(finc) == 1:
+            t, (_, exc_label) = ft[0]
             r: set[int] = set()
             for s_ in start:
-                r |= cfg.reach(s_, avoid_nodes=ftests + [dt], avoid_edges=[(x, "F") for x in fnn])
+                r |= cfg.reach(s_, avoid_nodes=[t, dt], avoid_edges=skips)
             bypass = wn.id in r
-            inc_first = cfg.node_dominates(finc[0], ftests[0]) or all(finc[0].id in cfg.reach(s_, avoid_nodes=[dt]) and ftests[0].id not in cfg.reach(s_, avoid_nodes=[finc[0], dt]) for s_ in start)
-            raises = _raises_retl_only(cfg, ftests[0], "T")
+            inc_first = all(t.id not in cfg.reach(s_, avoid_nodes=[finc[0], dt], avoid_edges=skips) for s_ in start)
+            raises = _raises_retl(cfg, t, exc_label)
             ok = (not bypass) and inc_first and raises
-            fact = f"write reachable in the Data branch without the size test (limit set, field part): {bypass}; size accumulated before the test: {inc_first}; true edge raises: {raises}"
-        ctx.ob("R10.3", f"`{norm(w)}` is bounded by the accumulated field size", ok, fact, pa, w, f"field write {norm(w)}")
-    # resets
+            fact = f"inline check: write reachable in the Data branch without the size test (limit set, field part): {bypass}; size accumulated before the test: {inc_first}; exceeded edge raises: {raises}"
+        elif helpers and not ft:
+            # field_size = self._helper(field_size, event.data) dominates the write inside the Data branch
+            facts = []
+            for c, hs in helpers.values():
+                hn = cfg.node_of(c)
+                st = astq.stmt_of(pa, c)
+                assigns_back = isinstance(st, ast.Assign) and len(st.targets) == 1 and astq.is_name(st.targets[0], "field_size") and st.value is c
+                passes_size = len(c.args) >= 2 and norm(c.args[0]) == "field_size" and norm(c.args[1]) == "event.data"
+                r = set()
+                for s_ in start:
+                    if s_ is not hn:
+                        r |= cfg.reach(s_, avoid_nodes=[hn, dt])
+                dom = wn.id not in r
+                ok = ok or (assigns_back and passes_size and dom)
+                facts.append(f"helper {c.func.attr}: {hs}; result assigned back to field_size: {assigns_back}; called with (field_size, event.data): {passes_size}; precedes the write on every path of the Data branch: {dom}")  # type: ignore[attr-defined]
+            fact = "; ".join(facts)
+        else:
+            fact = f"size tests on field_size: {len(ft)}, increments: {len(finc)}, accounting helpers: {len(helpers)}"
+        ctx.ob("R10.3", "the write of field data is bounded by the accumulated field size", ok, f"`{norm(w)}`: {fact}", pa, w, f"field write {norm(w)}")
     fdefs = astq.assigns_to(pa.node, "field_size")
-    field_t = _find_tests(cfg, lambda e: isinstance(e, ast.Call) and dotted(e.func) == "isinstance" and norm(e.args[0]) == "event" and norm(e.args[1]) == "Field")
-    file_t = _find_tests(cfg, lambda e: isinstance(e, ast.Call) and dotted(e.func) == "isinstance" and norm(e.args[0]) == "event" and norm(e.args[1]) == "File")
+    field_t = [t for t in f.tests() if isinstance(t.ast, ast.Call) and dotted(t.ast.func) == "isinstance" and norm(t.ast.args[0]) == "event" and norm(t.ast.args[1]) == "Field"]
+    file_t = [t for t in f.tests() if isinstance(t.ast, ast.Call) and dotted(t.ast.func) == "isinstance" and norm(t.ast.args[0]) == "event" and norm(t.ast.args[1]) == "File"]
     z = [s for s, v in fdefs if v is not None and norm(v) == "0"]
     nn_ = [s for s, v in fdefs if v is not None and norm(v) == "None" and cfg.node_of(s) is not None and cfg.guards(cfg.node_of(s))]
     ok = len(field_t) == 1 and len(file_t) == 1 and len(z) == 1 and cfg.edge_dominates(field_t[0], "T", cfg.node_of(z[0])) and any(cfg.edge_dominates(file_t[0], "T", cfg.node_of(s)) for s in nn_)
     ctx.ob("R10.3", "field_size is reset to 0 at every Field and disabled (None) at every File", ok, f"assignments {[norm(s) for s, _ in fdefs]}", pa, pa.node, "field_size resets")
-    other = [s for s, v in fdefs if not (v is not None and norm(v) in ("0", "None")) and not (isinstance(s, ast.AugAssign) and norm(s.value) == "len(event.data)")]
-    ctx.ob("R10.3", "field_size changes only by reset or += len(event.data)", not other, f"other writes: {[norm(s) for s in other]}", pa, pa.node, "field_size writers")
+    helper_assigns = {id(astq.stmt_of(pa, c)) for c, _ in helpers.values()}
+    other = [s for s, v in fdefs if not (v is not None and norm(v) in ("0", "None")) and not (isinstance(s, ast.AugAssign) and norm(s.value) == "len(event.data)") and id(s) not in helper_assigns]
+    ctx.ob("R10.3", "field_size changes only by reset or by the accumulated length of event.data", not other, f"other writes: {[norm(s) for s in other]}", pa, pa.node, "field_size writers")
 
     # ---------------- R10.4 -------------------------------------------
     fp = repo.cls("formparser.FormDataParser")
@@ -199,25 +284,25 @@ def run(ctx: Ctx) -> None:
     if pu is None:
         raise AnalysisError("FormDataParser._parse_urlencoded missing")
     ctx.saw(pu)
-    cfg = cfg_of(pu)
+    f = F(pu)
+    cfg = f.cfg
     reads = [c for c in astq.method_calls(pu.node, "read") if not c.args and astq.is_name(c.func.value, "stream")]  # type: ignore[attr-defined]
     bounded_reads = [c for c in astq.method_calls(pu.node, "read") if c.args and astq.is_name(c.func.value, "stream")]  # type: ignore[attr-defined]
     ctx.floor("R10.4", "reads of the urlencoded body", len(reads) + len(bounded_reads), 1)
-    utests = _find_tests(cfg, lambda e: _cmp_limit(e, {"max_form_memory_size"}) is not None)
-    unn = _find_tests(cfg, lambda e: _not_none_test(e, {"max_form_memory_size"}))
+    ut = [(t, _exceeds_edge(f, t, {"max_form_memory_size"})) for t in f.tests()]
+    ut = [(t, r) for t, r in ut if r is not None]
+    skips = _skip_edges(f, {"max_form_memory_size"})
     for rcall in reads:
         rn = cfg.node_of(rcall)
-        if len(utests) != 1:
+        if len(ut) != 1:
             ctx.ob("R10.4", "unbounded read of the urlencoded body is preceded by a size bound", False, "no comparison against max_form_memory_size", pu, rcall, "urlencoded read bound")
             continue
-        t = utests[0]
-        # (a) with a declared length: read unreachable past the comparison's true edge, comparison raises
-        raises = _raises_retl_only(cfg, t, "T")
-        bounded = norm(_cmp_limit(t.ast, {"max_form_memory_size"}))
-        ctx.ob("R10.4", "declared urlencoded length above max_form_memory_size is refused before reading", raises and bounded == "content_length" and cfg.node_of(rcall).id not in cfg.reach(cfg.succ(t, "T")), f"test `{norm(t.ast)}`, true edge raises: {raises}", pu, t.ast, "urlencoded declared length")
-        # (b) the read is reachable without ANY bound only when the limit is None
-        byp = rn.id in cfg.reach(avoid_nodes=[t], avoid_edges=[(x, "F") for x in unn])
-        fact = "every path to stream.read() with a limit configured passes the size comparison" if not byp else "stream.read() is reachable with a limit configured and no bound applied: " + cfg.fmt_path(cfg.path(cfg.entry, rn, avoid_nodes=[t], avoid_edges=[(x, "F") for x in unn]) or [])
+        t, (bounded, exc_label) = ut[0]
+        raises = _raises_retl(cfg, t, exc_label)
+        after_exceeded = any(rn.id in cfg.reach(s_) for s_ in cfg.succ(t, exc_label))
+        ctx.ob("R10.4", "declared urlencoded length above max_form_memory_size is refused before reading", raises and norm(bounded) == "content_length" and not after_exceeded, f"test `{norm(t.ast)}`, exceeded edge raises: {raises}", pu, t.ast, "urlencoded declared length")
+        byp = rn.id in cfg.reach(avoid_nodes=[t], avoid_edges=skips)
+        fact = "every path to stream.read() with a limit configured passes the size comparison" if not byp else "stream.read() is reachable with a limit configured and no bound applied: " + cfg.fmt_path(cfg.path(cfg.entry, rn, avoid_nodes=[t], avoid_edges=skips) or [])
         ctx.ob("R10.4", "unbounded stream.read() of the urlencoded body is dominated by a bound whenever a limit is configured", not byp, fact, pu, rcall, "urlencoded unbounded read when content_length is None")
     input_stream_rule(ctx, "R10.4")
 
@@ -234,6 +319,7 @@ def run(ctx: Ctx) -> None:
     for fq, callee, kws in chain:
         fi = repo.func(fq)
         ctx.saw(fi)
+        ff = F(fi)
         calls = astq.name_calls(fi.node, callee)
         if len(calls) != 1:
             ctx.ob("R10.5", f"{fq} calls {callee}", False, f"{len(calls)} call(s) found", fi, fi.node, f"{fq} -> {callee}")
@@ -241,7 +327,8 @@ def run(ctx: Ctx) -> None:
         for k, v in kws.items():
             nfw += 1
             got = astq.kwarg(calls[0], k)
-            ctx.ob("R10.5", f"{fi.qualname} forwards {k} to {callee}", got is not None and norm(got) == v, f"{k}={norm(got) if got is not None else None} (expected {v})", fi, calls[0], f"{fq} -> {callee}({k})")
+            gtxt = norm(ff.al.expand(got, ff.cfg.node_of(calls[0]))) if got is not None else None
+            ctx.ob("R10.5", f"{fi.qualname} forwards {k} to {callee}", gtxt == v, f"{k}={gtxt} (expected {v})", fi, calls[0], f"{fq} -> {callee}({k})")
     stores = [
         ("formparser.FormDataParser.__init__", ["max_form_memory_size", "max_content_length", "max_form_parts"]),
         ("formparser.MultiPartParser.__init__", ["max_form_memory_size", "max_form_parts"]),
@@ -263,18 +350,25 @@ def run(ctx: Ctx) -> None:
     scope = [dec.methods[m] for m in dec.methods] + [fp.methods[m] for m in fp.methods] + [mp.methods[m] for m in mp.methods] + [repo.func("formparser.parse_form_data"), repo.func("wsgi.get_input_stream"), repo.func("wrappers.request.Request.make_form_data_parser"), repo.func("wrappers.request.Request.stream")]
     nuse = 0
     for fi in scope:
-        cfg = cfg_of(fi)
+        ff = F(fi)
+        # locals that are plain aliases of a limit (single definition `x = self.<limit>` / `x = <limit param>`)
+        alias_names = set()
+        for n in walk_no_nested(fi.node):
+            if isinstance(n, ast.Assign) and len(n.targets) == 1 and isinstance(n.targets[0], ast.Name) and _is_limit(n.value, LIMIT_ATTRS) and len(astq.assigns_to(fi.node, n.targets[0].id)) == 1:
+                alias_names.add(n.targets[0].id)
+        helper_kind = _accounting_helper(ctx, fi) if fi.cls is mp else None
         for n in walk_no_nested(fi.node):
             is_use = False
             if isinstance(n, ast.Attribute) and n.attr in (LIMIT_ATTRS | COUNTERS) and isinstance(n.ctx, ast.Load):
                 is_use = True
-            elif isinstance(n, ast.Name) and n.id in (LIMIT_ATTRS | COUNTERS) and isinstance(n.ctx, ast.Load):
+            elif isinstance(n, ast.Name) and n.id in (LIMIT_ATTRS | COUNTERS | alias_names) and isinstance(n.ctx, ast.Load):
                 is_use = True
             if not is_use:
                 continue
             nuse += 1
-            kind = _classify_use(cfg, n)
-            ctx.ob("R10.6", f"{fi.qualname}: use of `{norm(n)}` is {kind or 'NOT a pure guard'}", kind is not None, f"in `{norm(astq.stmt_of(fi, n))[:90]}`", fi, n, f"{fi.qualname} use {norm(n)} in {norm(astq.stmt_of(fi, n))[:60]}")
+            kind = _classify_use(ff, n, alias_names, helper_kind is not None)
+            st = astq.stmt_of(fi, n)
+            ctx.ob("R10.6", f"{fi.qualname}: use of `{norm(n)}` is {kind or 'NOT a pure guard'}", kind is not None, f"in `{norm(st)[:90]}`", fi, n, f"{fi.qualname} use {norm(n)} in {norm(st)[:60]}")
     ctx.floor("R10.6", "uses of limits / counters", nuse, 25)
 
 
@@ -289,17 +383,58 @@ def _attr_writes(cls, attr: str):
     return out
 
 
-def _classify_use(cfg: CFG, n: ast.AST) -> str | None:
+def _accounting_helper(ctx: Ctx, h: FuncInfo) -> str | None:
+    """summary of a one-level helper `h(self, size, data)`: returns a description when h (1) compares the accumulated
+    size `size + len(data)` with max_form_memory_size and raises RequestEntityTooLarge on the exceeded edge, (2) returns
+    normally only past the not-exceeded edge or when the limit / the size is None, (3) returns the accumulated size."""
+    if len(h.params) != 3:
+        return None
+    _, psize, pdata = h.params
+    f = F(h)
+    cmps = [(t, _exceeds_edge(f, t, {"max_form_memory_size"})) for t in f.tests()]
+    cmps = [(t, r) for t, r in cmps if r is not None]
+    if len(cmps) != 1:
+        return None
+    t, (bounded, exc_label) = cmps[0]
+    bt = norm(f.al.expand(bounded, t))
+    acc_texts = {f"{psize} + len({pdata})", f"len({pdata}) + {psize}"}
+    acc_name = None
+    if bt not in acc_texts:
+        if isinstance(bounded, ast.Name):
+            defs = f.rd.reaching(t, bounded.id)
+            if defs and all(d.value is not None and (norm(d.value) in acc_texts or (d.kind == "aug" and norm(d.value) == f"len({pdata})" and bounded.id == psize)) for d in defs):
+                acc_name = bounded.id
+            else:
+                return None
+        else:
+            return None
+    if not _raises_retl(f.cfg, t, exc_label):
+        return None
+    ok_label = "F" if exc_label == "T" else "T"
+    skips = _skip_edges(f, {"max_form_memory_size"}, (psize,))
+    if f.cfg.exit.id in f.cfg.reach(avoid_edges=[(t, ok_label)] + skips):
+        return None
+    rets = astq.returns_of(h.node)
+    past = [r for r in rets if f.cfg.edge_dominates(t, ok_label, f.cfg.node_of(r))]
+    if not past or not all(norm(r.value) in acc_texts | ({acc_name} if acc_name else set()) for r in past):
+        return None
+    others = [r for r in rets if r not in past]
+    if not all(norm(r.value) in (psize, "None") for r in others):
+        return None
+    return f"raises RequestEntityTooLarge when {bt} exceeds max_form_memory_size, returns the accumulated size otherwise"
+
+
+def _classify_use(f: F, n: ast.AST, alias_names: set[str], in_helper: bool) -> str | None:
+    cfg = f.cfg
     p = astq.parent(n)
-    # forwarding: keyword argument value, or `self.X = X`
     if isinstance(p, ast.keyword) and p.arg in LIMIT_ATTRS:
         return "a forwarding edge"
     if isinstance(p, ast.Assign) and p.value is n and len(p.targets) == 1 and isinstance(p.targets[0], ast.Attribute) and p.targets[0].attr in LIMIT_ATTRS:
         return "a forwarding edge"
-    # LimitedStream(stream, max_content_length, is_max=True)
+    if isinstance(p, ast.Assign) and p.value is n and len(p.targets) == 1 and isinstance(p.targets[0], ast.Name) and p.targets[0].id in alias_names:
+        return "the definition of a local alias (whose uses are classified too)"
     if isinstance(p, ast.Call) and (dotted(p.func) or "").endswith("LimitedStream") and astq.kwarg(p, "is_max") is not None and norm(astq.kwarg(p, "is_max")) == "True" and len(p.args) > 1 and p.args[1] is n:
         return "the limit of a maximum-limited stream"
-    # comparison atoms
     cur = n
     while astq.parent(cur) is not None and not isinstance(astq.parent(cur), (ast.stmt, ast.BoolOp)) and not (isinstance(astq.parent(cur), ast.UnaryOp) and isinstance(astq.parent(cur).op, ast.Not)):  # type: ignore[union-attr]
         cur = astq.parent(cur)  # type: ignore[assignment]
@@ -309,11 +444,20 @@ def _classify_use(cfg: CFG, n: ast.AST) -> str | None:
             cp = astq.cmp_parts(cur)
             if cp and isinstance(cp[1], (ast.Is, ast.IsNot)) and astq.is_none(cp[2]):
                 return "an is-None test"
-            if cp and isinstance(cp[1], (ast.Gt, ast.GtE, ast.Lt, ast.LtE)):
-                label = "T"
-                if _raises_retl_only(cfg, tn[0], label):
-                    return "a guard comparison whose true edge only raises RequestEntityTooLarge"
-                return None
-    # counter update `field_size += len(...)`, `self._parts_decoded += 1` (target is Store, so only RHS uses land here)
-    st = cur if isinstance(cur, ast.stmt) else None
+            ex = _exceeds_edge(f, tn[0], LIMIT_ATTRS)
+            if ex is not None and _raises_retl(cfg, tn[0], ex[1]):
+                return "a guard comparison whose exceeded edge only raises RequestEntityTooLarge"
+            return None
+    if in_helper:
+        # inside the accounting helper: the accumulated size `size + len(data)` and its return are the counter's update
+        st = cur
+        while st is not None and not isinstance(st, ast.stmt):
+            st = astq.parent(st)
+        if isinstance(st, (ast.Assign, ast.Return)) and isinstance(n, ast.Name) and n.id in COUNTERS | {f.fi.params[1]}:
+            return "the counter's own update (accounting helper)"
+    # passing the counter to the accounting helper: field_size = self._helper(field_size, event.data)
+    if isinstance(p, ast.Call) and isinstance(p.func, ast.Attribute) and astq.is_self_attr(p.func) and isinstance(n, ast.Name) and n.id in COUNTERS:
+        st = astq.parent(p)
+        if isinstance(st, ast.Assign) and len(st.targets) == 1 and astq.is_name(st.targets[0], n.id):
+            return "the counter's own update (through the accounting helper)"
     return None
